@@ -19,11 +19,15 @@ def run_one(args):
         out["error"] = "patch does not apply: " + (r.stdout + r.stderr)[-300:]
         return out
     env = dict(os.environ, VERIF_REPO=d, VERIF_EVIDENCE_DIR=os.path.join(SCRATCH, f"slot{slot}", "evidence"), VERIF_SEED=os.environ.get("VERIF_SEED", "1"))
-    expected_miss = not meta["our_checks"]["caught_by"]
-    for prop in meta["our_checks"]["caught_by"] or meta["our_checks"].get("not_caught_by", []):
+    # "caught_by_stage": [[property, replay file of a thorough-tier stage, relative to /verif]] - run through bin/check --replay
+    stages = meta["our_checks"].get("caught_by_stage", [])
+    expected_miss = not meta["our_checks"]["caught_by"] and not stages
+    todo = [(pr, None) for pr in (meta["our_checks"]["caught_by"] or ([] if stages else meta["our_checks"].get("not_caught_by", [])))] + [(pr, f) for pr, f in stages]
+    for prop, stage in todo:
         t0 = time.time()
+        cmd = [os.path.join(ROOT, "bin", "check"), prop, "quick"] if stage is None else [os.path.join(ROOT, "bin", "check"), "--replay", prop, os.path.join(ROOT, stage)]
         try:
-            p = subprocess.run([os.path.join(ROOT, "bin", "check"), prop, "quick"], cwd=ROOT, env=env, capture_output=True, text=True, timeout=1800)
+            p = subprocess.run(cmd, cwd=ROOT, env=env, capture_output=True, text=True, timeout=1800)
             text, code = p.stdout, p.returncode
         except subprocess.TimeoutExpired:
             text, code = "", 124
@@ -31,7 +35,7 @@ def run_one(args):
         for line in text.splitlines():
             if line.startswith("case detail: signature="):
                 sig = line[len("case detail: signature="):].split(" :: ")[0]
-        out["runs"].append({"prop": prop, "caught": code == 1 and ("VIOLATION property=" + prop) in text, "exit": code, "signature": sig, "secs": round(time.time() - t0, 1), "expected_miss": expected_miss})
+        out["runs"].append({"prop": prop + ("" if stage is None else " (thorough-tier stage, replayed)"), "caught": code == 1 and ("VIOLATION property=" + prop.split()[0]) in text, "exit": code, "signature": sig, "secs": round(time.time() - t0, 1), "expected_miss": expected_miss})
     return out
 
 def main():
